@@ -406,7 +406,11 @@ def instances(tier):
         for lo, hi in OPBANDS:
             out.append(dict(h='prog2', p=dict(lo=lo, hi=hi, lens=[1]), max_seconds=3000))
             if lo >= 0x4f:
-                out.append(dict(h='prog2', p=dict(lo=lo, hi=hi, lens=[1, 1, 1], second='s'), max_seconds=3000))
+                # bands that contain comparison / MIN / MAX opcodes are split per opcode: followed by a hash opcode their paths
+                # carry the exact-table-to-function-symbol constraints of the hash stub and are slow
+                subs = [(o, o) for o in range(lo, hi + 1)] if (hi >= 0x8b and lo <= 0xa5) else [(lo, hi)]
+                for l2, h2 in subs:
+                    out.append(dict(h='prog2', p=dict(lo=l2, hi=h2, lens=[1, 1, 1], second='s'), max_seconds=3000))
     # control flow skeletons
     alpha = 'INEF10DV'
     for k in range(1, (3 if tier == 'quick' else 4) + 1):
